@@ -168,6 +168,8 @@ def gpg_digest_input(data: bytes, hdr: bytes, framing: str = "rfc") -> bytes:
         return data + hdr + b"\x04\xff" + struct.pack(">I", n & 0xFFFFFFFF)
     if framing == "notrailer":
         return data + hdr
+    if framing == "nolength":
+        return data + hdr + b"\x04\xff"
     if framing == "le32":
         return data + hdr + b"\x04\xff" + struct.pack("<I", n & 0xFFFFFFFF)
     if framing == "be16":
